@@ -294,3 +294,47 @@ package shwap
 //@   let back, e3 = RangeNamespaceDataIDV0FromBinary(bs)
 //@   assert e3 == nil
 //@   assert back.RangeNamespaceDataID.EdsID.height == edsID.height && back.RangeNamespaceDataID.From == from && back.RangeNamespaceDataID.To == to
+
+// ---------------------------------------------------------------------------------------------
+// C01: verified samples. Assumed contracts on dependencies (definitions read from their source:
+// nmt v0.24.x proof.go, go-square v4 share.go / namespace.go).
+
+//@ extern (github.com/celestiaorg/nmt.Proof).Start
+//@   ensures result == proof.start
+//@ extern (github.com/celestiaorg/nmt.Proof).End
+//@   ensures result == proof.end
+//@ extern (github.com/celestiaorg/nmt.Proof).IsEmptyProof
+//@   ensures result <==> (proof.start == proof.end && len(proof.nodes) == 0 && len(proof.leafHash) == 0)
+//@ extern (*github.com/celestiaorg/go-square/v4/share.Share).Namespace
+//@   ensures result.data == deref(s).data[0:29]
+//@ extern (*github.com/celestiaorg/go-square/v4/share.Share).ToBytes
+//@   ensures result == deref(s).data
+//@ extern (github.com/celestiaorg/go-square/v4/share.Namespace).Bytes
+//@   ensures result == n.data
+
+// A-NMT: inclusion verification of one leaf is an (uninterpreted) predicate of the proof, the
+// namespace bytes, the leaf bytes and the root. Byte buffers are identified by their slice header
+// (buffers are not mutated while a response is being verified).
+//@ pure func nmtIncl1(proof nmt.Proof, nid []byte, leaf []byte, root []byte) bool
+//@ extern (github.com/celestiaorg/nmt.Proof).VerifyInclusion
+//@   ensures len(leavesWithoutNamespace) == 1 ==> (result <==> nmtIncl1(proof, nid, leavesWithoutNamespace[0], root))
+
+//@ func inclusionNamespace
+//@   property C01
+//@   ensures (colIdx >= squareSize/2 || rowIdx >= squareSize/2) ==> result == libshare.ParitySharesNamespace
+//@   ensures !(colIdx >= squareSize/2 || rowIdx >= squareSize/2) ==> result.data == sh.data[0:29]
+
+//@ func (Sample).verifyInclusion
+//@   property C01
+//@   requires s.Proof != nil
+//@   ensures result ==> nmtIncl1(deref(s.Proof), ((colIdx >= len(roots.RowRoots)/2 || rowIdx >= len(roots.RowRoots)/2) ? libshare.ParitySharesNamespace.data : s.Share.data[0:29]), s.Share.data, (s.ProofType == rsmt2d.Row ? roots.RowRoots[uint(rowIdx)] : roots.ColumnRoots[uint(colIdx)]))
+
+// Property C01 for samples: an accepted sample carries a proof bound to exactly the requested
+// coordinate (Start/End), on the stated axis, against the root of that axis, under the namespace
+// the position dictates (parity outside the first quadrant).
+//@ func (Sample).Verify
+//@   property C01
+//@   ensures err == nil ==> s.Proof != nil && (s.ProofType == rsmt2d.Row || s.ProofType == rsmt2d.Col)
+//@   ensures err == nil && s.ProofType == rsmt2d.Row ==> deref(s.Proof).start == colIdx && deref(s.Proof).end == colIdx + 1
+//@   ensures err == nil && s.ProofType == rsmt2d.Col ==> deref(s.Proof).start == rowIdx && deref(s.Proof).end == rowIdx + 1
+//@   ensures err == nil ==> nmtIncl1(deref(s.Proof), ((colIdx >= len(roots.RowRoots)/2 || rowIdx >= len(roots.RowRoots)/2) ? libshare.ParitySharesNamespace.data : s.Share.data[0:29]), s.Share.data, (s.ProofType == rsmt2d.Row ? roots.RowRoots[uint(rowIdx)] : roots.ColumnRoots[uint(colIdx)]))
